@@ -15,8 +15,8 @@ from . import common, ctx
 from .gen import rng_for, to_json
 from .workload import TGen
 
-MODES = ("fresh", "user", "nodetail", "forbid", "custom", "rereg")
-CREATION_MODES = ("fresh", "user", "nodetail", "forbid", "custom")
+MODES = ("fresh", "user", "nodetail", "forbid", "custom", "omitdefault", "postcustom", "rereg")
+CREATION_MODES = ("fresh", "user", "nodetail", "forbid", "custom", "omitdefault", "postcustom")
 
 
 def build_battery(mm, py, heavy=True):
@@ -92,6 +92,8 @@ def user_converter(py, mode):
         return cattrs.Converter(detailed_validation=False)
     if mode == "forbid":
         return cattrs.Converter(forbid_extra_keys=True)
+    if mode == "omitdefault":
+        return cattrs.Converter(omit_if_default=True)
     if mode == "custom":
         c = cattrs.Converter()
         T = py.T
@@ -106,6 +108,12 @@ def user_converter(py, mode):
 def make(py, mode, live):
     if mode == "fresh":
         return py.cv.get_converter(), "fresh"
+    if mode == "postcustom":
+        # an application customises the converter it was given (as pygls-style code does)
+        c = py.cv.get_converter()
+        T = py.T
+        c.register_unstructure_hook(T.Position, lambda p: {"line": p.line, "character": p.character, "verifOwner": "app"})
+        return c, "postcustom"
     if mode == "rereg":
         if live:
             conv, m = live[-1]
@@ -188,7 +196,10 @@ def shard(i, n, args):
                 break
             res["creations"] += 1
             res["modes_seen"][m] = res["modes_seen"].get(m, 0) + 1
-            if not any(c is l[0] for l in live):
+            if any(c is l[0] for l in live):
+                if mode != "rereg":
+                    fail("get_converter returned a converter that already exists instead of a new one|mode=%s" % mode, {"history": hist, "step": step})
+            else:
                 live.append((c, m))
         # after the whole history: every live converter still behaves like a first-created one of its mode
         for k, (lc, m) in enumerate(live):
@@ -322,13 +333,13 @@ def main(tier):
     # configurations that must not change results: a user-supplied plain converter, and detailed
     # validation off (only the exception class of a rejection may differ)
     norm = lambda L: [x if not x.startswith("raises") else "raises" for x in L]
-    for m in ("user", "nodetail"):
+    for m in ("user", "nodetail", "omitdefault"):
         a, b = norm(refs[m]), norm(refs["fresh"])
         if a != b:
             idx = [q for q, (x, y) in enumerate(zip(a, b)) if x != y][:3]
             rep.fail("configuration changes results|mode=%s" % m, {"battery_index": idx, "got": [refs[m][q][:300] for q in idx], "default_converter": [refs["fresh"][q][:300] for q in idx]})
     # the configurations must be distinguishable by the battery, else the comparison has no power
-    for m in ("nodetail", "forbid", "custom"):
+    for m in ("nodetail", "forbid", "custom", "postcustom"):
         if refs[m] == refs["fresh"]:
             rep.inconc("battery cannot tell configuration %s from the default one" % m)
     d = common.scratch_dir("vf-c19-")
